@@ -15,6 +15,7 @@ mod c13;
 mod c14;
 mod c15;
 mod c16;
+mod c17;
 mod c18;
 mod c19;
 mod c20;
@@ -48,6 +49,7 @@ pub fn replay_dispatch(prop: &str, layer: &str, case: &serde_json::Value) -> Res
         "C14" => c14::replay(layer, case),
         "C15" => c15::replay(layer, case),
         "C16" => c16::replay(layer, case),
+        "C17" => c17::replay(layer, case),
         "C18" => c18::replay(layer, case),
         "C19" => c19::replay(layer, case),
         "C20" => c20::replay(layer, case),
@@ -156,6 +158,7 @@ fn main() {
         "C14" => c14::run(&mut run, &ctx),
         "C15" => c15::run(&mut run, &ctx),
         "C16" => c16::run(&mut run, &ctx),
+        "C17" => c17::run(&mut run, &ctx),
         "C18" => c18::run(&mut run, &ctx),
         "C19" => c19::run(&mut run, &ctx),
         "C20" => c20::run(&mut run, &ctx),
